@@ -367,8 +367,8 @@ func (st *State) external(caller *frame, fn *ssa.Function, args []Value) Value {
 			return Tuple{ConstInt(32, 0xFFFD), ConstInt(64, 0)}
 		}
 		if b[0].IsConst() && b[0].C >= 0x80 {
-			cs := st.concStr(s, name)
-			r, w := decodeRune(cs)
+			// a concrete non-ASCII lead byte: decode natively from the leading concrete bytes
+			r, w := decodeRune(constPrefix(b, 4))
 			return Tuple{ConstInt(32, int64(r)), ConstInt(64, int64(w))}
 		}
 		st.requireASCII(b[0])
@@ -621,4 +621,13 @@ func (st *State) intrinsic(caller *frame, fn *ssa.Function, args []Value) (Value
 		return h(st, caller, args), true
 	}
 	return nil, false
+}
+
+// constPrefix returns the leading concrete bytes of a byte-term vector (at most n).
+func constPrefix(b []*Term, n int) string {
+	var out []byte
+	for i := 0; i < len(b) && i < n && b[i].IsConst(); i++ {
+		out = append(out, byte(b[i].C))
+	}
+	return string(out)
 }
